@@ -22,8 +22,8 @@ for C in "$@"; do
   timeout ${SEEDED_TIMEOUT:-5400} ./check $C --tier quick > "$LOG" 2>&1
   RC=$?
   NV=$(grep -c '^VIOLATION' "$LOG")
-  FIRST=$(grep -A1 '^VIOLATION' "$LOG" | grep 'what:' | head -1 | cut -c1-300 | sed 's/"/\\"/g')
-  OUT="$OUT{\"check\":\"$C\",\"exit\":$RC,\"violation_lines\":$NV,\"first\":\"$FIRST\"},"
+  FIRST=$(grep -A1 '^VIOLATION' "$LOG" | grep 'what:' | head -1 | cut -c1-300 | python3 -c 'import json,sys; print(json.dumps(sys.stdin.read().rstrip("\n")))')
+  OUT="$OUT{\"check\":\"$C\",\"exit\":$RC,\"violation_lines\":$NV,\"first\":${FIRST:-\"\"}},"
   echo "$ID $C exit=$RC violations=$NV"
 done
 OUT="${OUT%,}]"
